@@ -101,7 +101,13 @@ impl Object {
 
     /// Create a new function value
     pub fn function(ip: u32, num_locals: u16) -> Self {
-        let value = ((ip as isize) << 16) | num_locals as isize;
+        Self::function_with_arity(ip, num_locals, 0)
+    }
+
+    /// Create a new function value that also records its number of parameters
+    /// (stored in 8 of the bits left unused by the instruction pointer and the number of locals)
+    pub fn function_with_arity(ip: u32, num_locals: u16, num_params: u8) -> Self {
+        let value = ((num_params as isize) << 48) | ((ip as isize) << 16) | num_locals as isize;
         Self::with_type((value << VALUE_SHIFT_BITS) as _, Type::Function)
     }
 
@@ -138,8 +144,16 @@ impl Object {
         // next 32 bits stores the IP
         let ip = (value >> 16) as u32;
 
-        // that leaves 64-32-16-3=13 bits unused
+        // the 8 bits after that store the number of parameters (see function_arity)
+        // that leaves 64-32-16-8-3=5 bits unused
         [ip, num_locals]
+    }
+
+    /// Returns the number of parameters of this function object
+    /// Note that is up to the caller to ensure this pointer is of the correct type
+    #[inline(always)]
+    pub fn function_arity(self) -> u8 {
+        ((self.0 as isize >> VALUE_SHIFT_BITS) >> 48) as u8
     }
 
     /// Returns the f64 value of this object pointer
